@@ -4,7 +4,7 @@
 
 import typing
 import warnings
-from ._symbolic import Operator, NullaryOperator, MemoizationOperator
+from ._symbolic import Operator, NullaryOperator, MemoizationOperator, flatten, unflatten
 
 
 class BitLengthSet:
@@ -47,6 +47,13 @@ class BitLengthSet:
             self._op = NullaryOperator([value])
         else:
             self._op = NullaryOperator(value)
+
+    def __getstate__(self) -> typing.Dict[str, typing.Any]:
+        # The expression is pickled in a flat form because it may be nested too deeply for the recursive pickler.
+        return {"_op": flatten(self._op)}
+
+    def __setstate__(self, state: typing.Dict[str, typing.Any]) -> None:
+        self._op = unflatten(state["_op"])
 
     # ========================================  QUERY METHODS  ========================================
 
